@@ -99,7 +99,40 @@ pub fn sparse_setup_walk(order: &[u8], ask: &[usize], k: u64, sink: &mut Sink) {
     let t = tables();
     let mut g = GameState::initial();
     let mut model = SetupModel::new();
+    // other setup positions (an unrelated arrangement, slot by slot): in every other walk some of them are
+    // questioned - not judged - right before a placement that is made without a question of its own:
+    // the same slot of the other colour, the next slot, the same slot
+    let foreign: Vec<GameState> = if k % 2 == 0 {
+        let mut v = Vec::with_capacity(32);
+        let mut f = GameState::initial();
+        let canon: [u8; 16] = [0, 0, 0, 0, 0, 0, 0, 0, 1, 2, 3, 4, 5, 3, 2, 1];
+        for i in 0..32usize {
+            v.push(f.clone());
+            let st = canon[(i + k as usize / 2) % 16];
+            // a rotated canonical order keeps the complement: every type count is preserved under rotation
+            f = match guard("take_action", || f.take_action(&Action::Place(t.piece[st as usize]))) {
+                Ok(x) => x,
+                Err(_) => break,
+            };
+        }
+        v
+    } else {
+        Vec::new()
+    };
     for (i, st) in order.iter().enumerate() {
+        if foreign.len() == 32 && !ask.contains(&i) {
+            let which = (i * 7 + k as usize) % 5;
+            let j = match which {
+                0 | 1 => Some((i + 16) % 32),
+                2 => Some((i + 1) % 32),
+                3 => Some(i),
+                _ => None,
+            };
+            if let Some(j) = j {
+                let _ = guard("valid_actions", || (foreign[j].valid_actions().len(), foreign[j].valid_actions_no_rep().len()));
+                sink.count("sparse_setup_walk_foreign_questions");
+            }
+        }
         if ask.contains(&i) {
             sink.count("sparse_setup_walk_questions");
             match guard("valid_actions", || (codes_of(&g.valid_actions()), codes_of(&g.valid_actions_no_rep()))) {
@@ -108,7 +141,7 @@ pub fn sparse_setup_walk(order: &[u8], ask: &[usize], k: u64, sink: &mut Sink) {
                     if ActSet::from_codes(&a) != exp || ActSet::from_codes(&b) != exp {
                         let sig = format!("C09|sparse|{}|{}", k, i);
                         let all: String = order.iter().map(|x| LETTERS[*x as usize]).collect();
-                        sink.violate("C09", "offered_placements_ne_remaining_complement", sig, format!("sparse walk over the placements {} (no question in between, questions only before placements {:?}): before placement {} offered={} rule-only={} expected={}", all, ask, i, ActSet::from_codes(&a).text(), ActSet::from_codes(&b).text(), exp.text()), json!({"kind": "c09_sparse", "order": all, "questions_before": ask}));
+                        sink.violate("C09", "offered_placements_ne_remaining_complement", sig, format!("sparse walk over the placements {} (no question in between, questions only before placements {:?}): before placement {} offered={} rule-only={} expected={}", all, ask, i, ActSet::from_codes(&a).text(), ActSet::from_codes(&b).text(), exp.text()), json!({"kind": "c09_sparse", "order": all, "questions_before": ask, "walk": k}));
                     }
                 }
                 Err(p) => {
@@ -122,6 +155,24 @@ pub fn sparse_setup_walk(order: &[u8], ask: &[usize], k: u64, sink: &mut Sink) {
             Err(_) => break,
         };
         model.place(*st);
+    }
+    // the finished setup: every piece where its placement belongs, Gold to move, play phase
+    if model.done() {
+        sink.count("sparse_setup_walk_final_positions_judged");
+        let r = guard("piece_board", || (decode_board(g.piece_board()), g.is_p1_turn_to_move(), g.is_play_phase(), g.current_step(), g.valid_actions().len()));
+        let bad = match &r {
+            Ok((b, gold, play, step, n)) => *b != model.board || !*gold || !*play || *step != 0 || *n == 0,
+            Err(_) => true,
+        };
+        if bad {
+            let sig = format!("C09|sparse_final|{}", k);
+            let all: String = order.iter().map(|x| LETTERS[*x as usize]).collect();
+            let got = match &r {
+                Ok((b, gold, play, step, n)) => format!("board={} gold_to_move={} play_phase={} step={} offered={}", b.compact(), gold, play, step, n),
+                Err(p) => format!("panicked at {} {}", p.site, p.msg),
+            };
+            sink.violate("C09", "setup_result_ne_placements", sig, format!("sparse walk over the placements {} (questions only before placements {:?}, other setup positions questioned in between: {}): expected board={} Gold to move in the play phase, got {}", all, ask, foreign.len() == 32, model.board.compact(), got), json!({"kind": "c09_sparse", "order": all, "questions_before": ask, "walk": k}));
+        }
     }
 }
 
@@ -199,7 +250,7 @@ pub fn c09(cfg: &Cfg) -> i32 {
         }
         mon.finish(sink);
     });
-    let floors = vec![floor("sparse_setup_walks", 30_000, 1_000_000), floor("setup_states_judged", 1_000_000, 50_000_000), floor("setups_completed", 30_000, 1_500_000), floor("gold_count_vectors_seen_of_971", 971, 971), floor("silver_count_vectors_seen_of_971", 971, 971)];
+    let floors = vec![floor("sparse_setup_walks", 30_000, 1_000_000), floor("sparse_setup_walk_foreign_questions", 100_000, 3_000_000), floor("sparse_setup_walk_final_positions_judged", 30_000, 1_000_000), floor("setup_states_judged", 1_000_000, 50_000_000), floor("setups_completed", 30_000, 1_500_000), floor("gold_count_vectors_seen_of_971", 971, 971), floor("silver_count_vectors_seen_of_971", 971, 971)];
     conclude(cfg, sink, report("setup_states_judged", "W7: scripted placement orders that pass through every one of the 972 per-side count vectors for both colours, plus random placement orders chosen from the engine's own offered lists; every prefix is a state. Offered placements are compared with the remaining complement, every placement with the model's next home square, and the switch to Silver / to the play phase with the statement. distinct_nontrivial = distinct (partial board, number placed).", floors, &["the setup model in harness/src/model.rs states the placement order of the property"]))
 }
 
@@ -344,13 +395,15 @@ pub fn c15_strings_child(cfg: &Cfg) -> i32 {
 
 // ---------------------------------------------------------------------------------------------
 fn c16_strings(cfg: &Cfg) -> Sink {
-    run_parallel(cfg, |w, sink| {
+    let mut s = run_parallel(cfg, |w, sink| {
         strings::run_w10(cfg.n(250_000, 12_000_000), cfg.seed, w, cfg.workers, sink);
-    })
+    });
+    strings::late_thread_prints(&mut s);
+    s
 }
 pub fn c16(cfg: &Cfg) -> i32 {
     let mut sink = c16_strings(cfg);
-    let mut rep = report("strings_judged", "W10: the value spaces completely (263 actions, 64 squares with all conversions, 6 pieces, 4 directions, 20k bitboards for map_bit_board_to_squares); every string of length 0..4 over a 45-symbol hostile alphabet (4 193 821 strings; includes characters equal to valid symbols modulo 256) and every printable-ASCII string of length 0..3 (866 496), each fed to the Action, Square, Piece and Direction parsers and compared with a reference grammar; every Unicode scalar value in every single position of 1-3 character notation strings (8 forms x 1 112 064 scalars); random longer strings, one-edit near-misses of valid actions and valid text with hostile tails. Run in the monitor profile and again in a plain release child. distinct_nontrivial = distinct random/near-miss strings (the exhaustive part is distinct by construction and reported separately).", vec![floor("strings_judged", 13_000_000, 13_000_000), floor("exhaustive_hostile_alphabet_len_le_4", 4_193_821, 4_193_821), floor("exhaustive_printable_ascii_len_le_3", 866_496, 866_496), floor("values_judged", 337, 337), floor("unicode_position_sweep_strings", 8_896_512, 8_896_512), floor("action_accepted", 300, 300), floor("random_strings", 500_000, 50_000_000)], &["the reference grammar in model.rs (parse_*_ref) is the statement of the notation"]);
+    let mut rep = report("strings_judged", "W10: the value spaces completely (263 actions, 64 squares with all conversions, 6 pieces, 4 directions, 20k bitboards for map_bit_board_to_squares); every string of length 0..4 over a 45-symbol hostile alphabet (4 193 821 strings; includes characters equal to valid symbols modulo 256) and every printable-ASCII string of length 0..3 (866 496), each fed to the Action, Square, Piece and Direction parsers and compared with a reference grammar; every Unicode scalar value in every single position of 1-3 character notation strings (8 forms x 1 112 064 scalars); random longer strings, one-edit near-misses of valid actions and valid text with hostile tails; every action and square also printed under 16 formatter options (width, fill, alignment, sign, zero and alternate flags, Debug forms inherited from Vec and Option: with fill and container punctuation trimmed off the text must parse back to the value) and once more, in three orders, on fresh threads started after all other work. Run in the monitor profile and again in a plain release child. distinct_nontrivial = distinct random/near-miss strings (the exhaustive part is distinct by construction and reported separately).", vec![floor("strings_judged", 13_000_000, 13_000_000), floor("exhaustive_hostile_alphabet_len_le_4", 4_193_821, 4_193_821), floor("exhaustive_printable_ascii_len_le_3", 866_496, 866_496), floor("values_judged", 337, 337), floor("prints_under_format_options", 5_232, 5_232), floor("late_thread_prints", 981, 981), floor("unicode_position_sweep_strings", 8_896_512, 8_896_512), floor("action_accepted", 300, 300), floor("random_strings", 500_000, 50_000_000)], &["the reference grammar in model.rs (parse_*_ref) is the statement of the notation"]);
     rep.exhaustive = Some(false);
     rep.extra.insert("exhaustive_parts".into(), json!("all strings of length <= 4 over the 45-symbol alphabet; all printable-ASCII strings of length <= 3; all 263 + 64 + 6 + 4 values"));
     match run_plain_child(cfg, "C16-strings") {
